@@ -41,7 +41,7 @@ FLOORS = {'quick': {'case_held': 400, 'nontrivial': 250}, 'thorough': {'case_hel
 COVER_FLOORS = {"quick": {"passes_held": ["expand_indices", "remove_component_tensors", "renumber_indices"]}, "thorough": {"passes_held": ["expand_indices", "remove_component_tensors", "renumber_indices"]}}
 CELLS = [("interval", 1), ("triangle", 2), ("triangle", 2), ("tetrahedron", 3)]
 PASSES = ["expand_indices", "remove_component_tensors", "renumber_indices"]
-TEMPLATES = ["shadow-ct", "variable-components", "nested-variables", "zero-free", "zero-free-rect", "ct3", "sibling-reuse", "capture", "gen", "gen", "gen"]
+TEMPLATES = ["shadow-ct", "variable-components", "nested-variables", "twin-label-variables", "zero-free", "zero-free-rect", "ct3", "sibling-reuse", "capture", "gen", "gen", "gen"]
 
 
 def hostile(rng, U, G, name):
@@ -66,6 +66,20 @@ def hostile(rng, U, G, name):
         v = ufl.variable(w)
         v2 = ufl.variable(v[0] * u + v)
         return v2[0] * v2[n - 1] + v[n - 1] * v2[i] * v[i]
+    if name == "twin-label-variables":
+        # replace() (like every map_expr_dag based pass) rebuilds Variable(e', label) with the ORIGINAL label: afterwards two
+        # variables with one label and different operands live in one expression (psi(u) - psi(u_old) of a time stepper)
+        from ufl.algorithms import replace
+
+        names = [nm for nm in sorted(U.spaces) if tuple(U.spaces[nm].value_shape) == (n,) and U.spaces[nm].ufl_element().pullback.is_identity]
+        if not names:
+            raise ValueError("no vector space of this size")
+        nm = rng.choice(names)
+        f, f_old = U.coef(nm, 0), U.coef(nm, 1)
+        F = ufl.variable(f + w if rng.random() < 0.5 else as_vector([f[q] * (q + 2) for q in range(n)]))
+        psi = F[i] * F[i] + F[0] * F[n - 1] + A[i, j] * F[i] * u[j]
+        psi_old = replace(psi, {f: f_old})
+        return rng.choice([lambda: psi - psi_old, lambda: psi * psi_old + psi_old, lambda: 0.5 * (psi + psi_old) * F[0]])()
     if name == "zero-free":
         z = 0 * A[i, j]
         T = as_tensor(z + A[i, j], (j, i))
